@@ -342,6 +342,10 @@ class C02(PropBase):
                     "n_accts": rng.choice([2, 4, 8]), "p_loc": 0.0, "p_tags": 0.0}
             txns = common.gen_journal(rng, cfg, opts)
             out.append(self.mk(rng, cfg, txns, "big-random" if big else "random", selector=rng.random() < 0.3))
+        # large journals (sums over thousands of postings, counts off any block size)
+        for _ in range(1 if tier == "quick" else 6):
+            n = rng.choice([2051, 2049, 1025, 4099])
+            out.append(self.mk(rng, {}, common.gen_large_journal(rng, n), "large:%d" % n, selector=rng.random() < 0.3))
         return out
 
     def mk(self, rng, cfg, txns, kind, selector=False):
